@@ -225,9 +225,31 @@ def specMFlush (rb : RB) (old : MockTerm) (impl : String) : String :=
     capabilities the driver probed, the size of the output buffer and `tt->pen`. -/
 structure XTerm where
   screen : XScreen
+  /-- C09's reference VT (Model/VT.lean) fed with the same bytes: the screen above must agree with it on what that
+      interpreter tracks - base code point, background and reverse video of every cell, the cursor, the pending wrap -/
+  vt : VT.VTState
   caps : TermPen.Caps
   buf : Nat
   pen : Pen
+
+/-- `VT.run`, re-tabulated every 64 bytes (execution speed only). -/
+def vtRunFrom (vt : VT.VTState) : Nat → List UInt8 → VT.VTState
+  | _, [] => vt
+  | k, b :: rest => vtRunFrom (if k % 64 = 63 then (VT.step vt b).compact else VT.step vt b) (k + 1) rest
+
+def vtRun (vt : VT.VTState) (bs : List UInt8) : VT.VTState := (vtRunFrom vt 0 bs).compact
+
+def colrToVT : Sgr.Colr → Int
+  | .dflt => -1
+  | .idx n => n
+  | .rgb r g b => VT.rgbColour r g b
+
+/-- What C09's VT shows for a cell of the screen: the base code point (32 blank, 0 second half of a wide character). -/
+def xcellToVT (c : XCell) : Option VT.Cell :=
+  match c.glyph with
+  | .blank => some ⟨32, colrToVT c.attrs.bg, c.attrs.reverse⟩
+  | .wcont => some ⟨0, colrToVT c.attrs.bg, c.attrs.reverse⟩
+  | .chars bs => (Tickit.RB.Utf8.nextUtf8 bs 0 (some bs.length)).map fun d => ⟨d.cp, colrToVT c.attrs.bg, c.attrs.reverse⟩
 
 def showChunks (cs : List (List UInt8)) : String :=
   if cs.isEmpty then "-" else ",".intercalate (cs.map fun c => if c.isEmpty then "." else bytesHex c)
@@ -252,6 +274,18 @@ def showXAttrs (a : Sgr.Attrs) : String :=
 
 def showXCell (c : XCell) : String := showGlyph c.glyph ++ " " ++ showXAttrs c.attrs ++ s!" w{c.writes}"
 
+/-- Self-check of the machinery: the screen of Model/RBFlushX.lean against C09's reference VT after the same bytes. -/
+def checkAgainstVT (s : XScreen) (vt : VT.VTState) : String :=
+  if s.row != vt.row || s.col != vt.col || s.pending != vt.pendingWrap then
+    s!"machinery: cursor ({s.row},{s.col},{s.pending}) but C09's reference VT has ({vt.row},{vt.col},{vt.pendingWrap})"
+  else
+    let cellsList := (List.range s.lines.toNat).flatMap fun l => (List.range s.cols.toNat).map fun c => (l, c)
+    let bad := cellsList.findSome? fun (l, c) =>
+      if xcellToVT (s.cells (l : Int) (c : Int)) == some (vt.grid (l : Int) (c : Int)) then none
+      else some s!"machinery: cell ({l},{c}) is [{showXCell (s.cells (l : Int) (c : Int))}] but C09's reference VT shows glyph {(vt.grid (l : Int) (c : Int)).glyph} bg {(vt.grid (l : Int) (c : Int)).bg} rv {(vt.grid (l : Int) (c : Int)).rv}"
+    bad.getD ""
+
+
 /-- The requests of the set-up of `termx`: the prior pen, the sentinel rows, the cursor. -/
 def xSetupReqs (tl tc : Nat) (pen : Option Pen) (seed : Nat) : List Req :=
   (match pen with | none => [] | some p => [Req.setpen p]) ++
@@ -262,7 +296,8 @@ def xSetupReqs (tl tc : Nat) (pen : Option Pen) (seed : Nat) : List Req :=
 def newXTerm (tl tc buf : Nat) (caps : TermPen.Caps) (pen : Option Pen) (seed : Nat) : XTerm × String :=
   let r := xflush caps 0 Pen.empty (xSetupReqs tl tc pen seed)
   let scr := ((XScreen.fresh tl tc).run r.stream).zeroWrites.compact
-  ({ screen := scr, caps := caps, buf := buf, pen := r.pen }, bytesHex r.stream)
+  let vt := vtRun (VT.VTState.init tl tc fun _ _ => VT.Cell.blank (-1)) r.stream
+  ({ screen := scr, vt := vt, caps := caps, buf := buf, pen := r.pen }, bytesHex r.stream)
 
 /-- `overlay` evaluated on the screen a VT shows after reading the bytes the output function was handed. -/
 def checkXGrid (caps : TermPen.Caps) (rb : RB) (old new : XScreen) : String :=
@@ -293,6 +328,7 @@ def specXFlush (rb : RB) (t : XTerm) (impl : String) : String :=
         let new := t.screen.run stream
         if new.ps != .ground then "the byte stream ends inside a control sequence or a UTF-8 sequence"
         else if new.unknown != t.screen.unknown then "the byte stream contains a control sequence the terminal does not know"
+        else if checkAgainstVT new (vtRun t.vt stream) != "" then checkAgainstVT new (vtRun t.vt stream)
         else
           let v := checkXGrid t.caps rb t.screen new
           if v != "" then (if contentWithinB rb t.screen.cols t.screen.lines then v else beyondPrefix ++ v)
@@ -407,7 +443,7 @@ def step (st : St) (ts : List String) (impl : String) : St × String × String :
       let rb' := res.rb.compact
       let m := "r=" ++ showOutcome res.out ++ (if x.ok then "" else "-UB") ++ " out=" ++ showChunks x.during ++
         " fl=" ++ showChunks (if x.final.isEmpty then [] else [x.final]) ++ " pen=" ++ showPen x.pen ++ " rb=" ++ showRB rb'
-      let t' := { t with screen := t.screen.run x.stream, pen := x.pen }
+      let t' := { t with screen := t.screen.run x.stream, vt := vtRun t.vt x.stream, pen := x.pen }
       ({ st with rb := some rb', xterm := some t' }, m, specXFlush rb t impl)
     | _, _ =>
     match st.rb, st.mterm with
